@@ -1,6 +1,6 @@
 """C04 — a command starts only after everything it needs is in place (DESIGN 5.4)."""
 from facts import AnalysisBroken
-from model import (dstr, strip, fact_holds, mentions_field, mentions_call, mentions_var,
+from model import (facts_str, dstr, strip, fact_holds, mentions_field, mentions_call, mentions_var,
                    const_value, walk)
 from rules import (guarded, calls_to, field_writes, who_may_write, who_may_call, must_pass,
                    dominated_by, full_range, loops_over, every_iteration_passes, basename,
@@ -284,6 +284,7 @@ def run(ctx):
                       '%s inserts into inputs_ and calls Node::AddOutEdge%s' % (
                           ff.name, '' if has else ' (exempt: %s)' % P2_EXEMPT.get(ff.name)))
     ctx.floor('C04.P2', 3)
+    check_unwanted_edge_finish(ctx)
 
 
 P2_EXEMPT = {
@@ -291,3 +292,30 @@ P2_EXEMPT = {
         'inserts placeholder slots only; its callers (LoadDepFile, LoadDepsFromLog) fill them and '
         'call AddOutEdge — checked as separate instances',
 }
+
+
+def check_unwanted_edge_finish(ctx):
+    """C04.W4: an edge the plan does not want is declared finished - which marks its outputs ready and wakes its dependents - only
+    where all of its inputs are ready: readiness is handed on, never invented."""
+    from model import const_value as _cv, mentions_enum
+    prog = ctx.prog
+    ctx.rule('C04.W4', 'G', 'inside the plan, Plan::EdgeFinished(edge, kEdgeSucceeded) for an edge that did not run (want == kWantNothing, '
+             'a phony edge) is reached only under Edge::AllInputsReady(): an unwanted edge passes readiness on to its dependents, '
+             'it must not be ahead of its own inputs')
+    n = 0
+    for f, e in calls_to(prog, 'Plan::EdgeFinished'):
+        if f.cls != 'Plan':
+            continue
+        if not any(mentions_enum(a, 'Plan::kEdgeSucceeded') for a in e.get('args') or []):
+            continue
+        n += 1
+        facts = f.facts_at(e)
+        ok = fact_holds(facts, lambda a: mentions_call(a, 'Edge::AllInputsReady'), True)
+        if not ok:
+            # through the callers: the function is entered only behind the test (caller context)
+            r = f.find_path(None, lambda x: x is e, from_succ=f.entry,
+                            edge_ok=lambda b, i, s2: not any(p_ is True and mentions_call(a_, 'Edge::AllInputsReady') for k_, p_, a_ in f.edge_facts(b, i)))
+            ok = r is None
+        ctx.check('C04.W4', ok, f.name, 'unwanted-edge:finished-before-inputs-ready', f.where(e),
+                  'Plan::EdgeFinished(.., kEdgeSucceeded) in %s is reached only behind AllInputsReady(); facts: %s' % (f.name, facts_str(facts)[:6]))
+    ctx.floor('C04.W4', 1)
